@@ -468,6 +468,10 @@ func (p *Prog) DynCallees(site ssa.CallInstruction) []*ssa.Function {
 	return p.vtaEdges[site]
 }
 
+// IsAnchor reports whether f (or the declared function that encloses it) is
+// one of the functions the rule sets are anchored at.
+func (p *Prog) IsAnchor(f *ssa.Function) bool { return p.isAnchorFn(f) }
+
 func (p *Prog) isAnchorFn(f *ssa.Function) bool {
 	if p.anchors == nil || f == nil {
 		return true
